@@ -13,7 +13,7 @@ Fixpoint index_in (s : string) (l : list string) (i : Z) : Z :=
   match l with [] => -1 | x :: r => if String.eqb s x then i else index_in s r (i + 1) end.
 Definition ikey (k : key) : Z * Z := (index_in (fst k) table_kinds 0, snd k).
 
-Definition mkdir_flag : bool := fspath_append_validates && fspath_validate_creates_parent.
+Definition mkdir_flag : bool := fspath_ctor_validates && fspath_append_validates && fspath_validate_creates_parent.
 
 Inductive action :=
 | ARun (reqs : list (Z * Z))        (* one run of the program preparing these transforms in order *)
